@@ -100,6 +100,18 @@ def build(case, with_mapping=True):
         for d in range(nd):
             d1[..., c, d] = a1[d] / float(mesh.cell[d])
             d2[..., c, d] = a2[d] / float(mesh.cell[d]) ** 2
+    if case.get("complex"):
+        # complex polynomial: imaginary part built from the coefficient sets read backwards
+        ai = np.empty((*n, k)); a1i = np.empty((*n, k, nd)); a2i = np.empty((*n, k, nd))
+        for c in range(k):
+            p_, b1, b2 = poly_eval(list(reversed(case["coef"][(c + 1) % k])), grids)
+            ai[..., c] = p_
+            for d in range(nd):
+                a1i[..., c, d] = b1[d] / float(mesh.cell[d])
+                a2i[..., c, d] = b2[d] / float(mesh.cell[d]) ** 2
+        arr = arr + 1j * ai
+        d1 = d1 + 1j * a1i
+        d2 = d2 + 1j * a2i
     if case["data"] == "random":
         arr = gen.make_array(case["seed"], (*n, k), "int")
         d1 = d2 = None
@@ -108,7 +120,8 @@ def build(case, with_mapping=True):
         kw["vdims"] = list(case["vdims"])
     if with_mapping and k == nd and (k > 1 or case["vdims"]):
         kw["vdim_mapping"] = mapping_of(case, dims)
-    f = df.Field(mesh, nvdim=k, value=arr, valid=gen.make_mask(case["mask"], n), **kw)
+    f = df.Field(mesh, nvdim=k, value=arr, valid=gen.make_mask(case["mask"], n),
+                 dtype=np.complex128 if case.get("complex") else None, **kw)
     return mesh, dims, f, arr, d1, d2
 
 
@@ -366,6 +379,9 @@ SUBS = [
     Sub("analytic-partly-periodic", check_analytic,
         vec_case(nmin=3, full_valid=True, bc_ok=True, ndim=(2, 4)).map(lambda c: dict(c, data="poly", zero_periodic=True)),
         nontrivial=nontrivial, quick=200, thorough=1200),
+    Sub("analytic-complex", check_analytic,
+        st.one_of(vec_case(nmin=3, full_valid=True, bc_ok=False), vec_case(nmin=3, nvdim=1, full_valid=True, bc_ok=False))
+        .map(lambda c: dict(c, data="poly", complex=True)), nontrivial=nontrivial, quick=150, thorough=1000),
     Sub("analytic-scalar", check_analytic,
         vec_case(nmin=3, nvdim=1, full_valid=True, bc_ok=False).map(lambda c: dict(c, data="poly")),
         nontrivial=nontrivial, quick=120, thorough=800),
